@@ -48,6 +48,7 @@ def _params_in(t):
 
 
 _CMP_OPS = ("le", "lt", "ge", "gt", "eq", "ne", "in", "notin", "is", "isnot")
+_SET_METHODS = ("isdisjoint", "issubset", "issuperset", "intersection", "union", "difference", "symmetric_difference")
 
 
 class Table:
@@ -82,11 +83,16 @@ class Table:
             if t[1] not in self.tables:
                 try:
                     m, v = self.repo.table(t[1])
-                    self.tables[t[1]] = ast.literal_eval(v)
+                    if isinstance(v, ast.Call) and isinstance(v.func, ast.Name) and v.func.id in ("frozenset", "set", "tuple", "list") and len(v.args) == 1 and not v.keywords:
+                        self.tables[t[1]] = set(ast.literal_eval(v.args[0])) if v.func.id in ("frozenset", "set") else tuple(ast.literal_eval(v.args[0]))
+                    else:
+                        self.tables[t[1]] = ast.literal_eval(v)
                 except Exception:
                     raise Unknown("free name %s is not a literal table" % t[1])
             val = self.tables[t[1]]
-            if isinstance(val, (list, tuple, set)):
+            if isinstance(val, (set, frozenset)):
+                return frozenset(val)
+            if isinstance(val, (list, tuple)):
                 return tuple(val)
             raise Unknown("table %s is not a sequence" % t[1])
         raise Unknown(repr(t)[:80])
@@ -118,8 +124,15 @@ class Table:
     def _scan(self, t):
         if not isinstance(t, tuple):
             return
+        pair = None
         if t and t[0] in _CMP_OPS and len(t) == 3:
-            a, b = t[1], t[2]
+            pair = (t[1], t[2])
+        elif t and t[0] in ("bitand", "bitor", "bitxor", "sub") and len(t) == 3 and any(isinstance(x, tuple) and x and x[0] == "set" for x in (t[1], t[2])):
+            pair = (t[1], t[2])          # set algebra between a set of type parameters and a literal set
+        elif t and t[0] == "mcall" and len(t) == 5 and t[2] in _SET_METHODS and len(t[3]) == 2:
+            pair = (t[1], t[3][1])       # S.isdisjoint(T), S.issubset(T), ...
+        if pair is not None:
+            a, b = pair
             feats = []
             for x, y in ((a, b), (b, a)):
                 if isinstance(x, tuple) and x and x[0] in ("set", "list") and not self.is_closed(x):
@@ -205,6 +218,24 @@ class Table:
             if not isinstance(a, frozenset) and not (isinstance(a, (int, float)) and isinstance(b, (int, float))):
                 raise Unknown("ordering of non-numeric values")
             return {"le": a <= b, "lt": a < b, "ge": a >= b, "gt": a > b}[op]
+        if op == "len" and len(t) == 2:
+            return len(self.ev(t[1], env))
+        if op == "call" and t[1] == "len" and len(t[2]) == 2 and t[3] == ("kws",):
+            return len(self.ev(t[2][1], env))
+        if op in ("bitand", "bitor", "bitxor", "sub") and len(t) == 3:
+            a, b = self.ev(t[1], env), self.ev(t[2], env)
+            if isinstance(a, frozenset) and isinstance(b, frozenset):
+                return {"bitand": a & b, "bitor": a | b, "bitxor": a ^ b, "sub": a - b}[op]
+            if op == "sub" and all(isinstance(x, (int, float)) and not isinstance(x, bool) for x in (a, b)):
+                return a - b
+            raise Unknown("operator %s on non-sets" % op)
+        if op == "mcall" and len(t) == 5 and t[2] in _SET_METHODS and len(t[3]) == 2 and t[4] == ("kws",):
+            a, b = self.ev(t[1], env), self.ev(t[3][1], env)
+            if isinstance(a, tuple):
+                raise Unknown("set method on a sequence")
+            if isinstance(a, frozenset) and isinstance(b, (frozenset, tuple)):
+                return getattr(a, t[2])(frozenset(b))
+            raise Unknown("set method on non-sets")
         if op in ("call", "free"):
             v = self.const_of(t)
             return frozenset(v) if op == "call" and t[1] in ("set", "frozenset") else v
